@@ -60,6 +60,151 @@ let run_surface_spec toks =
     Printf.printf "%s spec %s\n" id (if ok then "ok" else "bad")
   | _ -> failwith "bad surfspec line"
 
+
+(* ------------------------------------------------------------------ *)
+(* scene cases: a token cursor *)
+type cur = { toks : string array; mutable i : int }
+let peek c = if c.i < Array.length c.toks then c.toks.(c.i) else ""
+let next c = let t = c.toks.(c.i) in c.i <- c.i + 1; t
+let nz c = zi (next c)
+let nint c = int_of_string (next c)
+let nf c = F32.of_bits (zi (next c))
+let npt c = let x = nf c in let y = nf c in (x, y)
+let nhex c = zhex (next c)
+let rec ntimes n f = if n <= 0 then [] else let v = f () in v :: ntimes (n - 1) f
+let nxf c = let a = nf c in let b = nf c in let cc = nf c in let d = nf c in let e = nf c in let f = nf c in
+  { PathF.m11 = a; PathF.m12 = b; PathF.m21 = cc; PathF.m22 = d; PathF.m31 = e; PathF.m32 = f }
+let nrect c = let a = nz c in let b = nz c in let cc = nz c in let d = nz c in
+  { Rect.x0 = a; Rect.y0 = b; Rect.x1 = cc; Rect.y1 = d }
+
+(* P <winding> <nops> ops... ; C ops carry K n quads *)
+let npath c =
+  (match next c with "P" -> () | t -> failwith ("expected P got " ^ t));
+  let w = if nint c = 0 then Raster.NonZero else Raster.EvenOdd in
+  let n = nint c in
+  let ops = ntimes n (fun () ->
+    match next c with
+    | "M" -> PathF.MoveTo (npt c)
+    | "L" -> PathF.LineTo (npt c)
+    | "Q" -> let a = npt c in let b = npt c in PathF.QuadTo (a, b)
+    | "C" -> let a = npt c in let b = npt c in let d = npt c in
+      (match next c with "K" -> () | t -> failwith ("expected K got " ^ t));
+      let k = nint c in
+      let quads = ntimes k (fun () -> let p = npt c in let q = npt c in let r = npt c in ((p, q), r)) in
+      PathF.CubicTo (a, b, d, quads)
+    | "Z" -> PathF.Close
+    | t -> failwith ("bad path op " ^ t)) in
+  { PathF.p_ops = ops; PathF.p_winding = w }
+
+let nimage c = let w = nz c in let h = nz c in
+  let n = int_of_z w * int_of_z h in
+  let data = ntimes (max n 0) (fun () -> nhex c) in
+  { Shader.i_w = w; Shader.i_h = h; Shader.i_data = data }
+let nspread c = match next c with
+  | "pad" -> Shader.SpreadPad | "reflect" -> Shader.SpreadReflect | "repeat" -> Shader.SpreadRepeat
+  | t -> failwith ("spread " ^ t)
+let nstops c = let n = nint c in ntimes n (fun () -> let p = nf c in let col = nhex c in { Shader.gs_pos = p; Shader.gs_color = col })
+
+exception Ctor_panic
+let nsource c =
+  match next c with
+  | "solid" -> Shader.Solid (nhex c)
+  | "image" -> let im = nimage c in
+    let e = (match next c with "pad" -> Shader.ExtPad | "repeat" -> Shader.ExtRepeat | t -> failwith t) in
+    let f = (match next c with "bilinear" -> Shader.Bilinear | "nearest" -> Shader.Nearest | t -> failwith t) in
+    let t = nxf c in Shader.Image (im, e, f, t)
+  | "linear" -> let st = nstops c in let sp = nspread c in let t = nxf c in Shader.LinearGradient (st, sp, t)
+  | "radial" -> let st = nstops c in let sp = nspread c in let t = nxf c in Shader.RadialGradient (st, sp, t)
+  | "linearc" -> let st = nstops c in let sp = nspread c in let a = npt c in let b = npt c in
+    Shader.new_linear_gradient st a b sp
+  | "radialc" -> let st = nstops c in let sp = nspread c in let a = npt c in let r = nf c in
+    (match Shader.new_radial_gradient st a r sp with Some s -> s | None -> raise Ctor_panic)
+  | "twocirclec" -> let st = nstops c in let sp = nspread c in let a = npt c in let r1 = nf c in let b = npt c in let r2 = nf c in
+    Shader.new_two_circle_radial_gradient st a r1 b r2 sp
+  | "sweepc" -> let st = nstops c in let sp = nspread c in let a = npt c in let a0 = nf c in let a1 = nf c in
+    Shader.new_sweep_gradient st a a0 a1 sp
+  | t -> failwith ("source " ^ t)
+let nopts c = let m = mode_of_int (nint c) in let a = nf c in let aa = nint c <> 0 in
+  { Target.o_blend = m; Target.o_alpha = a; Target.o_aa = aa }
+
+let skip_to_bar c = while peek c <> ";" && peek c <> "" do ignore (next c) done
+
+(* one op; stroke ops carry the crate's own stroked path after the token STROKED *)
+let nop c =
+  match next c with
+  | "xf" -> Target.OpSetTransform (nxf c)
+  | "cliprect" -> Target.OpPushClipRect (nrect c)
+  | "clippath" -> Target.OpPushClip (npath c)
+  | "popclip" -> Target.OpPopClip
+  | "layer" -> let o = nf c in let m = mode_of_int (nint c) in Target.OpPushLayer (o, m)
+  | "poplayer" -> Target.OpPopLayer
+  | "fill" -> let p = npath c in let s = nsource c in let o = nopts c in Target.OpFill (p, s, o)
+  | "stroke" ->
+    (* user path and style are for the implementation; the model fills the supplied outline *)
+    while peek c <> "SRC" do ignore (next c) done; ignore (next c);
+    let s = nsource c in let o = nopts c in
+    (match next c with "STROKED" -> () | t -> failwith ("expected STROKED got " ^ t));
+    let p = npath c in Target.OpStroke (p, s, o)
+  | "fillrect" -> let x = nf c in let y = nf c in let w = nf c in let h = nf c in
+    let s = nsource c in let o = nopts c in Target.OpFillRect (x, y, w, h, s, o)
+  | "clear" -> Target.OpClear (nhex c)
+  | "mask" -> let s = nsource c in let x = nz c in let y = nz c in let mw = nz c in let mh = nz c in
+    let n = int_of_z mw * int_of_z mh in
+    let data = ntimes (max n 0) (fun () -> nz c) in Target.OpMask (s, x, y, mw, mh, data)
+  | "drawimage" -> let x = nf c in let y = nf c in let im = nimage c in let o = nopts c in Target.OpDrawImageAt (x, y, im, o)
+  | "drawimagesize" -> let w = nf c in let h = nf c in let x = nf c in let y = nf c in let im = nimage c in let o = nopts c in
+    Target.OpDrawImageSize (w, h, x, y, im, o)
+  | "surf" -> let kind = next c in let param = next c in
+    let k = (match kind with
+      | "copy" -> Surface.CsCopy
+      | "blend" -> Surface.CsBlend (mode_of_int (int_of_string param))
+      | "alpha" -> Surface.CsAlpha (F32.unit_to_u8 (F32.of_bits (zi param)))
+      | _ -> failwith "surf kind") in
+    let im = nimage c in let r = nrect c in let dx = nz c in let dy = nz c in
+    Target.OpSurface (k, im.Shader.i_w, im.Shader.i_h, im.Shader.i_data, r, dx, dy)
+  | t -> failwith ("bad op " ^ t)
+
+(* cheap order-sensitive hash of a byte mask, same function in the harness *)
+let mask_hash l = Stdlib.List.fold_left (fun h z -> ((h * 31) + int_of_z z + 7) land 0xffffffff) 17 l
+
+let state_string (st : Target.dt) =
+  let b = Buffer.create 1024 in
+  Buffer.add_string b "S";
+  Stdlib.List.iter (fun z -> Buffer.add_char b ' '; Buffer.add_string b (hex z)) st.Target.d_buf;
+  (match st.Target.d_layers with
+   | l :: _ ->
+     let r = l.Target.l_rect in
+     Buffer.add_string b (Printf.sprintf " L %d %d %d %d" (int_of_z r.Rect.x0) (int_of_z r.Rect.y0) (int_of_z r.Rect.x1) (int_of_z r.Rect.y1));
+     Stdlib.List.iter (fun z -> Buffer.add_char b ' '; Buffer.add_string b (hex z)) l.Target.l_buf
+   | [] -> ());
+  let cb = Target.clip_bounds st in
+  Buffer.add_string b (Printf.sprintf " C %d %d %d %d %s" (int_of_z cb.Rect.x0) (int_of_z cb.Rect.y0) (int_of_z cb.Rect.x1) (int_of_z cb.Rect.y1)
+    (match Target.top_clip_mask st with Some m -> string_of_int (mask_hash m) | None -> "none"));
+  Buffer.add_string b (if Raster.rast_idle st.Target.d_cur.PathF.rz then " idle" else " busy");
+  Buffer.contents b
+
+(* scene <id> <W> <H> I <pixels> ; op ; op ... : one output line, op results separated by " | " *)
+let run_scene toks =
+  let c = { toks = Array.of_list toks; i = 0 } in
+  let id = next c in
+  let w = nz c in let h = nz c in
+  (match next c with "I" -> () | _ -> failwith "expected I");
+  let n = int_of_z w * int_of_z h in
+  let px = ntimes (max n 0) (fun () -> nhex c) in
+  let st = ref (Target.dt_new w h px) in
+  let out = Buffer.create 4096 in
+  Buffer.add_string out id;
+  (try
+    while peek c = ";" do
+      ignore (next c);
+      let r = (try (let o = nop c in Target.step_op !st o) with Ctor_panic -> Base.Err Base.Unwrap) in
+      (match r with
+       | Base.Ok st' -> st := st'; Buffer.add_string out (" | " ^ state_string st')
+       | Base.Err e -> Buffer.add_string out (" | err " ^ err_name e); raise Exit)
+    done
+  with Exit -> ());
+  print_endline (Buffer.contents out)
+
 let () =
   try
     while true do
@@ -69,6 +214,7 @@ let () =
       | [] -> ()
       | "surf" :: rest -> run_surface rest
       | "surfspec" :: rest -> run_surface_spec rest
+      | "scene" :: rest -> run_scene rest
       | t :: _ -> failwith ("unknown case kind " ^ t)
     done
   with End_of_file -> ()
